@@ -18,6 +18,8 @@ EXPLANATION = (
     "attribute by type (G5); the parser never re-orders results (G6); first-match alternations cannot "
     "shadow a longer alternative (G7); every in-place modification inside the parser package is applied to a value created on the spot - an accessor whose result callers extend (namespaces(), full_namespaces()) must return a new list on every call, otherwise repeated queries corrupt the stored namespace path (G8); a parse action that returns text instead of a node must return it unchanged on elements whose text is information (F1). Which alternative pyparsing's longest-match Or picks for a truly "
     "ambiguous input is a language question and is not decided.")
+EXPLANATION += (
+    ' G9: every word-like terminal is a Keyword or can only be followed by punctuation (FOLLOW sets over the grammar IR; oneOf is modelled as an alternation of plain literals), so no keyword eats the first letters of an identifier.')
 ASSUMPTIONS = [
     "pyparsing results-name semantics as documented: expr(name) copies the element and shares the action; "
     "names inside an element whose action returns a new object are not visible outside it",
